@@ -71,23 +71,25 @@ type tmplInfo struct {
 }
 
 type expSession struct {
-	env      *Env
-	proto    string
-	domain   uint32
-	ep       *exporter.ExportingProcess
-	mu       sync.Mutex
-	wire     []wireMsg
-	calls    []callRec
-	tmpls    map[int]*tmplInfo
-	set      entities.Set
-	appGID   uint64
-	inCall   int
-	closed   bool
-	closeAt  time.Time
-	refresh  time.Duration
-	addr     string
-	listener *simnet.Listener
-	seqMarks []seqMark
+	env             *Env
+	proto           string
+	domain          uint32
+	ep              *exporter.ExportingProcess
+	mu              sync.Mutex
+	wire            []wireMsg
+	calls           []callRec
+	tmpls           map[int]*tmplInfo
+	set             entities.Set
+	appGID          uint64
+	inCall          int
+	closed          bool
+	closeAt         time.Time
+	refresh         time.Duration
+	addr            string
+	listener        *simnet.Listener
+	seqMarks        []seqMark
+	window          int // receive window of the peer (0: unlimited); with a window the peer task reads
+	trailingPartial int
 }
 
 type seqMark struct {
@@ -114,6 +116,7 @@ type expOpts struct {
 	tls        *exporter.ExporterTLSClientConfig
 	addr       string
 	udpHook    func(s *expSession, p []byte) simnet.Fate // fault hook on the exporter's datagram socket
+	noPeer     bool                                      // the caller runs its own peer task
 }
 
 func newExpSession(env *Env) (*expSession, error) { return newExpSessionOpts(env, expOpts{}) }
@@ -167,6 +170,10 @@ func newExpSessionOpts(env *Env, o expOpts) (*expSession, error) {
 	if s.proto == "udp" && in.TempRefTimeout == 0 {
 		s.refresh = time.Duration(entities.TemplateRefreshTimeOut) * time.Second
 	}
+	s.window = int(cfgOr(pl, "window", 0))
+	if s.window > 0 && s.listener != nil && !o.noPeer {
+		s.startPeer()
+	}
 	ep, err := exporter.InitExportingProcess(in)
 	if err != nil {
 		return nil, err
@@ -209,6 +216,55 @@ func (s *expSession) send(c callRec) {
 	s.calls = append(s.calls, c)
 	s.mu.Unlock()
 	s.env.Logf("call %d %s slot=%d n=%d err=%v", len(s.calls)-1, c.Kind, c.Slot, n, err != nil)
+}
+
+// startPeer runs a slow collector: it accepts the exporter's connection with a bounded receive
+// window and reads it, except during the stall periods of the plan (ops {K:"peerstall", A:at ms,
+// B:duration ms}), so that the exporter's writes block.
+func (s *expSession) startPeer() {
+	type stall struct{ from, to time.Time }
+	var stalls []stall
+	t0 := time.Now()
+	for _, op := range s.env.Plan.Ops {
+		if op.K == "peerstall" {
+			stalls = append(stalls, stall{t0.Add(time.Duration(op.A) * time.Millisecond), t0.Add(time.Duration(op.A+op.B) * time.Millisecond)})
+		}
+	}
+	s.env.Go("slow-peer", func() {
+		var c net.Conn
+		var err error
+		Block("accept", func() { c, err = s.listener.Accept() })
+		if err != nil {
+			return
+		}
+		c.(*simnet.Conn).SetWindow(s.window)
+		buf := make([]byte, 8192)
+		for {
+			now := time.Now()
+			for _, st := range stalls {
+				if !now.Before(st.from) && now.Before(st.to) {
+					s.env.Count("fault.peer_stall", 1)
+					s.env.Sleep(st.to.Sub(now))
+					now = time.Now()
+				}
+			}
+			c.SetReadDeadline(time.Now().Add(50 * time.Millisecond))
+			var n int
+			Block("peer-read", func() { n, err = c.Read(buf) })
+			_ = n
+			if err != nil && !isTimeout(err) {
+				c.Close()
+				return
+			}
+			s.mu.Lock()
+			closed := s.closed
+			s.mu.Unlock()
+			if closed && err != nil {
+				c.Close()
+				return
+			}
+		}
+	})
 }
 
 // appGIDInit records the application goroutine (call first, from the app task).
@@ -514,10 +570,67 @@ type parsedWire struct {
 func (s *expSession) parseWire() []parsedWire {
 	s.mu.Lock()
 	defer s.mu.Unlock()
+	if s.window > 0 && s.proto == "tcp" {
+		return s.reassembleLocked()
+	}
 	out := make([]parsedWire, len(s.wire))
 	for i, w := range s.wire {
 		m, err := ipfixref.ParseMessage(w.Bytes)
 		out[i] = parsedWire{wireMsg: w, Msg: m, Err: err}
+	}
+	return out
+}
+
+// reassembleLocked: with flow control a Write reaches the socket in portions, so the tapped
+// byte stream is cut into messages by their own length fields (as any receiver must). A message
+// takes the time / writer / call of the portion holding its first byte. A partial message is
+// acceptable only as the very last thing on the stream (the connection was closed under a
+// blocked write); anything following a partial message is out of frame and fails to parse.
+func (s *expSession) reassembleLocked() []parsedWire {
+	var stream []byte
+	type origin struct {
+		off int
+		w   wireMsg
+	}
+	var origins []origin
+	for _, w := range s.wire {
+		origins = append(origins, origin{len(stream), w})
+		stream = append(stream, w.Bytes...)
+	}
+	find := func(off int) wireMsg {
+		best := origins[0].w
+		for _, o := range origins {
+			if o.off <= off {
+				best = o.w
+			}
+		}
+		return best
+	}
+	var out []parsedWire
+	for off := 0; off < len(stream); {
+		w := find(off)
+		rest := stream[off:]
+		if len(rest) < 4 {
+			s.trailingPartial = len(rest)
+			break
+		}
+		l := int(rest[2])<<8 | int(rest[3])
+		if l < 16 {
+			w.Bytes = rest
+			out = append(out, parsedWire{wireMsg: w, Err: fmt.Errorf("stream offset %d: message length field %d (stream out of frame)", off, l)})
+			break
+		}
+		if l > len(rest) {
+			s.trailingPartial = len(rest)
+			break
+		}
+		w.Bytes = rest[:l]
+		m, err := ipfixref.ParseMessage(w.Bytes)
+		out = append(out, parsedWire{wireMsg: w, Msg: m, Err: err})
+		if err != nil {
+			break
+		}
+		off += l
 	}
 	return out
 }
